@@ -287,6 +287,16 @@ def classify(text):
         t2 = norm(text)
         if t2 != text and real_A(t2) == real_B(t2):
             return fid
+    # two known root causes in one text (e.g. a digit-initial identifier next to
+    # a regex literal ending in a backslash): both normalisations together
+    import itertools
+    for (f1, (n1, _, _)), (f2, (n2, _, _)) in itertools.permutations(KNOWN.items(), 2):
+        t1 = n1(text)
+        if t1 == text:
+            continue
+        t2 = n2(t1)
+        if t2 != t1 and real_A(t2) == real_B(t2):
+            return f1
     return None
 
 
